@@ -178,16 +178,24 @@ def dedup (l : List String) : List String :=
 /-- outcomes over all scripts of the class with at most two wake items -/
 def admitted (cfg : Cfg) (c : ClassCfg) (ctx : Option CtxErr) : List String :=
   let ws := wakesOf c ctx
-  let scripts : List (List Wake) := [[]] ++ ws.map ([·]) ++ ws.flatMap fun a => ws.map fun b => [a, b]
   let ctxAts : List (Option CtxErr) := match ctx with
     | none => [none]
     | some k => [none, some k]
-  let outs := c.e0s.flatMap fun e0 => ctxAts.flatMap fun ca => scripts.filterMap fun wakes =>
+  let run (e0 : Errno) (ca : Option CtxErr) (wakes : List Wake) : DRes :=
     let a : Attempt := { fd := 5, e0, ctxAt := ca, wakes }
-    let r := if c.unix then (dialUnix {} a 0).2 else (dialTCP {} { att := fun _ => a }).2.1
-    match r with
-    | .blocked => none
-    | .ret conn err => some (showOutcome cfg conn err)
+    if c.unix then (dialUnix {} a 0).2 else (dialTCP {} { att := fun _ => a }).2.1
+  let outs := c.e0s.flatMap fun e0 => ctxAts.flatMap fun ca =>
+    match run e0 ca [] with
+    | .ret conn err => [showOutcome cfg conn err]      -- returns without waiting
+    | .blocked =>
+      ws.flatMap fun a =>
+        match run e0 ca [a] with
+        | .ret conn err => [showOutcome cfg conn err]
+        | .blocked =>                                   -- the loop goes round again: one more wake-up
+          ws.filterMap fun b =>
+            match run e0 ca [a, b] with
+            | .ret conn err => some (showOutcome cfg conn err)
+            | .blocked => none
   dedup outs
 
 partial def admitLoop (cfg : Cfg) (h out : IO.FS.Stream) : IO Unit := do
